@@ -59,7 +59,8 @@ MechPActsOnRef(G, j, n) == PreGate(G, j) /\ SecondCheck(G, n)
 \* post-processing item (absent for pp = "none")
 RulePP(pp) == [Rule EXCEPT !.applied = IF pp = "none" THEN @ ELSE Append(@, <<102,105,114,115,116>>)]
 Clause(o) ==
-    IF o.pp # "-" THEN
+    IF ~ValidGate(o.G) THEN (IF o.ret.ok THEN "UnknownLinkingWordAccepted" ELSE IF o.ret.sigma THEN "" ELSE "NonSigmaException")
+    ELSE IF o.pp # "-" THEN
         (IF ~o.ret.ok THEN (IF o.ret.sigma THEN "GateConfigurationRejected" ELSE "NonSigmaException")
          ELSE IF o.ret.out.rule # ActsOnRule(o.G, RulePP(o.pp)) THEN "GateIff:post-processing" ELSE "")
     ELSE IF ~o.ret.ok THEN (IF o.ret.sigma THEN "GateConfigurationRejected" ELSE "NonSigmaException")
